@@ -190,3 +190,78 @@ func VerifH_ProcChanBacklog() {
 	symx.WaitQuiescent()
 	symx.Reach("end")
 }
+
+// C14/H2c: a call made with a context that has already ended, on an idle lane and behind a busy call, on
+// the runner queue (delegate / Proc) and on the proc channel - every interleaving of caller and lane and
+// every choice among ready select cases: the caller gets its own context's error and no result, or (had
+// the lane run the call) its own result; never a nil error without its result.
+func VerifH_DeadContextCall() {
+	wg := &sync.WaitGroup{}
+	kind := symx.Concrete(symx.Int("kind"), 0, 2) // 0 delegate, 1 Proc on the runner queue, 2 proc channel
+	var r *RunnerQ
+	var p *ProcChan
+	if kind == 2 {
+		p = NewProcChan(WithQSize(2), WithWaitGroup(wg))
+		p.Run()
+	} else {
+		r = NewRunnerQ(WithQSize(symx.Concrete(symx.Int("qSize"), 0, 2)), WithWaitGroup(wg))
+		r.Run()
+	}
+	log := &verifRunLog{}
+	gate := make(chan struct{})
+	busy := symx.Bool("behindBusyCall")
+	body := func(id int) (interface{}, error) {
+		symx.YieldOn(log)
+		n := symx.GhostAdd(&log.running, 1)
+		symx.Assert(n == 1, "calls on one lane never overlap in time")
+		log.runs[id]++
+		if id == 0 {
+			<-gate
+		}
+		symx.YieldOn(log)
+		symx.GhostAdd(&log.running, -1)
+		return 100 + id, nil
+	}
+	call := func(ctx context.Context, id int) (interface{}, error) {
+		switch kind {
+		case 0:
+			return r.AsyncDelegate(ctx, func(context.Context) (interface{}, error) { return body(id) })
+		case 1:
+			return r.AsyncProc(ctx, verifProc{id, body})
+		}
+		return p.AsyncProc(ctx, verifProc{id, body})
+	}
+	var rA, rD interface{}
+	var eA, eD error
+	var tA symx.ThreadID
+	if busy {
+		tA = symx.Go("callerA", func() { rA, eA = call(verifNewRCtx(), 0) })
+		symx.WaitQuiescent()
+	}
+	dead := verifNewRCtx()
+	dead.cancel()
+	tD := symx.Go("deadCaller", func() { rD, eD = call(dead, 1) })
+	symx.WaitQuiescent()
+	symx.MustFinish(tD, "a caller whose context has ended returns without waiting for the lane")
+	if busy {
+		close(gate)
+		symx.WaitQuiescent()
+		symx.MustFinish(tA, "the busy call completes")
+		symx.Assert(eA == nil && rA.(int) == 100, "caller A receives the result of its own call")
+	}
+	if eD == nil {
+		symx.Assert(log.runs[1] == 1 && rD != nil && rD.(int) == 101, "a nil error comes with the result of the caller's own call")
+	} else {
+		symx.Assert(eD == context.Canceled && rD == nil, "otherwise the caller gets its own context's error and no result")
+	}
+	symx.Assert(log.runs[1] <= 1, "at most once")
+	if kind == 2 {
+		p.Stop()
+	} else {
+		r.Stop()
+	}
+	tW := symx.Go("waiter", func() { wg.Wait() })
+	symx.WaitQuiescent()
+	symx.MustFinish(tW, "after Stop the lane goroutine terminates")
+	symx.Reach("end")
+}
